@@ -36,7 +36,7 @@ ASSUMPTIONS = [
     "path components are matched case-sensitively",
 ]
 BUDGET = {"quick": (200, 4), "thorough": (64000, 16)}
-REQUIRED = ["glob", "dir_pattern", "basename", "relpath_pattern", "ii_file", "nested", "child_after_parent", "x_file_and_dir", "multi_generation", "duplicate_pattern", "verify_dh", "sf_generation", "real_missing_next_to_excluded", "blank_in_pattern_file_line", "cli_pattern_on_verify_dh", "nested_history_folder_removed"]
+REQUIRED = ["glob", "dir_pattern", "basename", "relpath_pattern", "ii_file", "nested", "child_after_parent", "x_file_and_dir", "multi_generation", "duplicate_pattern", "verify_dh", "sf_generation", "real_missing_next_to_excluded", "blank_in_pattern_file_line", "cli_pattern_on_verify_dh", "nested_history_folder_removed", "cli_pattern_on_verify_and_diff"]
 
 DEFAULTS = [".DS_Store", "ascmhl", "ascmhl/"]
 _first = "abcdefghijklmnopqrstuvwxyzABCDEFGHIJKLMNOPQRSTUVWXYZ0123456789_."
@@ -332,6 +332,29 @@ def run_case(scn, ctx):
             else:
                 res = getattr(w, cmd)("R")
             require(res.exc is None and res.exit_code == 0, "x-edits-" + cmd, "only excluded entries were edited/added/deleted but %s\n%s" % (res.brief(), res.output[-400:]), res)
+        # patterns given only on the command line (or in a pattern file) of verify / diff: a new file and a removed recorded
+        # file that match them are reported neither as new nor as missing
+        plain = lambda n: set(n) <= set("abcdefghijklmnopqrstuvwxyzABCDEFGHIJKLMNOPQRSTUVWXYZ0123456789._") and n[0] not in ".-"
+        vict = [f for f in w.media_files("R") if not matches(f[2:], eff) and plain(f.split("/")[-1]) and (("R", f) in w.first or any(k[1] == f for k in w.first))
+                and not any(matches(g[2:], [f.split("/")[-1]]) for g in w.media_files("R") + w.media_dirs("R") if g != f)]
+        if vict:
+            v2 = vict[(scn["edits"] // 11) % len(vict)]
+            saved = w.files[v2]
+            w.rm(v2)
+            newdirs = [d for d in [""] + [d[2:] for d in w.media_dirs("R")] if not matches(d, eff)] if True else [""]
+            nd = newdirs[(scn["edits"] // 13) % len(newdirs)]
+            newf = "R/" + (nd + "/" if nd else "") + "only_on_cli.qqq"
+            w.put(newf, "new, but excluded on the command line")
+            os.makedirs(w.abs("_ii"), exist_ok=True)
+            with open(w.abs("_ii/cli.txt"), "w") as fh:
+                fh.write("*.qqq\n" + v2.split("/")[-1] + "\n")
+            for cmd in ("verify", "diff"):
+                for how, extra in (("-i", ["-i", "*.qqq", "-i", v2.split("/")[-1]]), ("-ii", ["-ii", w.abs("_ii/cli.txt")])):
+                    res = w.run(cmd, [w.abs("R")] + extra)
+                    require(res.exc is None and res.exit_code == 0, "cli-pattern-" + cmd, "%s %s: new %r and removed %r both match the given patterns but %s\n%s" % (cmd, how, newf[2:], v2[2:], res.brief(), res.output[-300:]), res)
+            w.rm(newf)
+            w.put(v2, saved)
+            feats.add("cli_pattern_on_verify_and_diff")
         # patterns given on the command line of verify -dh: the printed directory hashes are those of the tree without the
         # matching entries - compared with the twin world from which the same entries are really removed
         from .c07 import printed_table
